@@ -97,6 +97,19 @@ pub fn loop_pair() -> (Vec<u8>, Vec<u8>) {
     (v, d)
 }
 
+/// the gcda of review probe round2/gcno/B.lean: two OBJECT_SUMMARY records whose run count is
+/// 0xFFFFFFFF before the function record of `tiny_gcda` (76 bytes); before /repo 8b2da6c the u32 sum
+/// `self.runcounts += …` overflowed (a panic with overflow checks on)
+pub fn summary_overflow_gcda() -> Vec<u8> {
+    let mut v = vec![];
+    v.extend_from_slice(b"adcg");
+    v.extend_from_slice(b"*204");
+    for x in [7u32, 0xa100_0000, 2, 0xffff_ffff, 0, 0xa100_0000, 2, 0xffff_ffff, 0, 0x0100_0000, 2, 1, 2, 0x01a1_0000, 2, 1, 0, 0] {
+        w(&mut v, x);
+    }
+    v
+}
+
 /// `blocksGcno k`: format 12, one function, `k` BLOCKS records each announcing as many blocks as bytes are left
 pub fn blocks_gcno(k: usize) -> Vec<u8> {
     let mut v = vec![];
@@ -331,6 +344,8 @@ pub fn run(rep: &mut Report) {
         ("loop pair (a line in two blocks with a self loop: cycle search)", loop_pair().0, vec![loop_pair().1]),
         ("counter overflow (two runs of 2^64-1)", tiny_gcno(), vec![tiny_gcda(255, 255), tiny_gcda(255, 255)]),
         ("six BLOCKS records (blocksGcno 6)", blocks_gcno(6), vec![]),
+        ("two summary records with run count 2^32-1", tiny_gcno(), vec![summary_overflow_gcda()]),
+        ("summary records with large run counts in two gcda", tiny_gcno(), vec![summary_overflow_gcda(), summary_overflow_gcda()]),
         ("gcda ends at a record boundary without terminator", tiny_gcno(), vec![tiny_gcda(1, 0)[..28].to_vec()]),
     ];
     let wit_base = reqs.len();
@@ -439,28 +454,43 @@ pub fn corpus(rep: &mut Report) {
 
 fn corpus_case(rep: &mut Report, case: &serde_json::Value) {
     let data = unhex(case["data_hex"].as_str().unwrap_or(""));
+    let gcdas: Vec<Vec<u8>> = case["gcdas_hex"].as_array().map(|a| a.iter().map(|v| unhex(v.as_str().unwrap_or(""))).collect()).unwrap_or_default();
     let what = case["what"].as_str().unwrap_or("corpus").to_string();
-    let c = Case { kind: "gcno", what: what.clone(), data: data.clone(), aux: vec![] };
+    // in the child first (address-space and time limit): with the first gcda, if there is one
+    let c = match gcdas.first() {
+        Some(d) => Case { kind: "gcda", what: what.clone(), data: d.clone(), aux: data.clone() },
+        None => Case { kind: "gcno", what: what.clone(), data: data.clone(), aux: vec![] },
+    };
     let outs = run_batch(rep, &[c], "gcnosafecorpus");
-    rep.case(&format!("gcnosafe corpus {}", hex(&data)), true);
+    rep.case(&format!("gcnosafe corpus {} {}", hex(&data), gcdas.iter().map(|d| hex(d)).collect::<Vec<_>>().join(" ")), true);
     let (o, ms) = &outs[0];
     rep.count(&format!("gcnosafe.corpus.child.{}", o.split(' ').next().unwrap_or("none")));
     if !(o.starts_with("ok") || o.starts_with("err")) || *ms > 2_000 {
-        rep.fail("oracle", None, format!("a {}-byte gcno ({}) did not come back under the 2 GiB limit: {} after {} ms", data.len(), what, if o.is_empty() { "not run" } else { o }, ms), case.clone());
+        rep.fail("oracle", None, format!("a {}-byte gcno ({}) did not come back with a value or an error: {} after {} ms", data.len(), what, if o.is_empty() { "not run" } else { o }, ms), case.clone());
         return;
     }
-    // it came back in the child: safe to run in-process, without any gcda, against the model
-    let out = run_impl(&data, &[]);
-    let a = run_model(&[format!("c14.gcno.computeb 1 {}", tok(&data))], &rep.workdir, "c14gcnosafe.corpus");
+    // it came back in the child: safe to run in-process against the model
+    let out = run_impl(&data, &gcdas);
+    let mut req = format!("c14.gcno.computeb 1 {}", tok(&data));
+    for d in &gcdas {
+        req.push(' ');
+        req.push_str(&tok(d));
+    }
+    let a = run_model(&[req], &rep.workdir, "c14gcnosafe.corpus");
     let imp = if out.starts_with("panic") { "panic".to_string() } else { out.clone() };
     if out.starts_with("panic") {
-        rep.fail("oracle", None, format!("reader panicked on a corpus gcno ({}): {}", what, out), case.clone());
+        rep.fail("oracle", None, format!("reader panicked on a corpus case ({}): {}", what, out), case.clone());
     } else if model_class(&a[0]) != imp {
         rep.disagreements_checked += 1;
         let mut cj = case.clone();
         cj["impl"] = json!(out);
         cj["model"] = json!(a[0]);
-        rep.fail("disagreement", None, format!("Gcno::compute differs from computeBytes on a corpus gcno ({})", what), cj);
+        rep.fail("disagreement", None, format!("Gcno::compute differs from computeBytes on a corpus case ({})", what), cj);
+    }
+    if let Some(exp) = case["expect"].as_str() {
+        if out != exp {
+            rep.fail("oracle", None, format!("corpus case ({}): Gcno::compute gives {} where {} was recorded", what, out, exp), case.clone());
+        }
     }
 }
 
